@@ -46,9 +46,10 @@ pub fn packet(k: usize, salt: usize) -> Vec<u8> {
         12 => ipfix_message(&IpfixMsg::new(vec![])),
         13 => v9_packet(&V9Pkt::new(vec![])),
         14 => fixed_distinct(7, 0, salt),
-        // data for 256 followed, in the same packet, by a redefinition of 256 (parsing such a packet twice is not idempotent)
-        15 => v9_packet(&V9Pkt::new(vec![V9Set::Data(256, body12(salt + 7)), V9Set::Tpl(vec![V9Tpl { id: 256, fields: vec![fs(2, 8), fs(96, 4)] }], 0)])),
-        16 => ipfix_message(&IpfixMsg::new(vec![IpfixSet::Data(256, body12(salt + 8)), IpfixSet::Tpl(vec![IpfixTpl { id: 256, fields: vec![fs(8, 4), fs(7, 2), fs(4, 1), fs(5, 1), fs(1, 4)] }], 0)])),
+        // data for 256 followed, in the same packet, by a redefinition of 256 (parsing such a packet twice is not idempotent);
+        // independent of the position, so that a sequence can hold two byte-identical adjacent packets
+        15 => v9_packet(&V9Pkt::new(vec![V9Set::Data(256, body12(7)), V9Set::Tpl(vec![V9Tpl { id: 256, fields: vec![fs(2, 8), fs(96, 4)] }], 0)])),
+        16 => ipfix_message(&IpfixMsg::new(vec![IpfixSet::Data(256, body12(8)), IpfixSet::Tpl(vec![IpfixTpl { id: 256, fields: vec![fs(8, 4), fs(7, 2), fs(4, 1), fs(5, 1), fs(1, 4)] }], 0)])),
         17 => v9_packet(&V9Pkt::new(vec![V9Set::Data(999, body12(salt + 6))])),
         18 => {
             let mut b = fixed_distinct(5, 1, salt);
